@@ -1,5 +1,5 @@
 """Which units and lemmas serve which property (DESIGN §4/§5)."""
-from . import sm, ps
+from . import sm, ps, ef, z
 
 A_IDEAL = 'A-IDEAL: float/double arithmetic treated as real arithmetic, source literals exact (rounding not modelled)'
 A_SUMCOMM = 'L-SUMCOMM: interchange of finite double sums (column sums = 1 => total conserved) not machine-checked'
@@ -11,7 +11,7 @@ NOT_APPLICABLE = {
     'C11': 'relation between two complete program executions through an HDF5 file; no function contract expresses it (DESIGN §6)',
     'C20': 'behaviour is produced inside boost::program_options; a contract proof would be about an axiomatisation of boost (DESIGN §6)',
 }
-for _p in ('C03 C04 C05 C06 C07 C10 C12 C13 C14 C16 C17 C18 C19').split():
+for _p in ('C03 C04 C05 C10 C12 C13 C14 C17 C19').split():
     NOT_APPLICABLE[_p] = PENDING
 
 SM_KICK = [sm.CalcCoefficiants, sm.UpdateSM, sm.KickMapApply, sm.SourceMapCtor, sm.SourceMapCtor7, sm.KickMapCtor,
@@ -75,6 +75,52 @@ PROPERTIES = {
                         'PhaseSpace constructors (Gaussian start distribution, copy constructor) are not under contract: the copy constructor delegates to the main constructor which recomputes projections and integral by the verified methods'],
         'uncovered': ['discretisation error of Simpson sums for Gaussians (numerical analysis, not a code property)', 'PhaseSpace constructors'],
         'explanation': 'functional postconditions with ghost indices over every PhaseSpace method named by the property',
+        'technique': TECH,
+    },
+    'C06': {
+        'units': [ef.PadBunchProfiles, ef.WakePotential],
+        'lemmas': [],
+        'level': 'proof',
+        'claim': 'wakePotential = scale * IDFT_herm( Z[i]*DFT(train)[i] for i < n/2, zero from n/2 ) read back at bucket*spacing + x, where the train holds every bunch profile at '
+                 'bucket*spacing and zeros elsewhere; FFTW represented by its contract (uninterpreted DFT/IDFT of the buffer contents); unbounded in lengths, patterns, spacing',
+        'assumptions': [A_IDEAL, A_LIB, DROPS, 'A-FFTW-R2C: r2c writes DFT(in)[0..n/2]', 'A-FFTW-C2R: c2r returns the Hermitian inverse transform of in[0..n/2] and may overwrite in[0..n/2) only',
+                        'complex multiplication kept symbolic (same products in code and spec); the scale factor Ib*dt*c/(sigma_z*dE)/N is the constructor contract (C05)'],
+        'uncovered': ['the scale factor formula of the delegating constructor (claimed under C05 when the constructor is under contract)', 'padded length computed in main (C17 config slice)'],
+        'explanation': 'functional posts with ghost indices on padBunchProfiles and wakePotential',
+        'technique': TECH,
+    },
+    'C18': {
+        'units': [ef.PadBunchProfiles, ef.WakePotential, ef.UpdateCSR],
+        'lemmas': [],
+        'level': 'other',
+        'claim': 'every cell a transform reads is determined by the current profile/impedance or is a never-written zero: train layout incl. zeros outside the bunch ranges, '
+                 'loss spectrum rewritten below n/2 and zero from n/2, class invariants re-established by wakePotential; for all lengths and patterns. '
+                 'updateCSR on an object with non-zero bunch spacing is outside the claim (main uses separate objects)',
+        'assumptions': [A_IDEAL, A_LIB, DROPS, 'A-FFTW-R2C', 'A-FFTW-C2R (observed: c2r never modifies in[k >= n/2])'],
+        'uncovered': ['interleaving updateCSR with wakePotential on one object with spacing > 0 (updateCSR writes the profile at offset 0, not re-zeroed)', 'bit-identity (ideal arithmetic)'],
+        'explanation': 'freshness expressed functionally: posts fix the value of every transform input cell',
+        'technique': TECH,
+    },
+    'C07': {
+        'units': [ef.UpdateCSR, z.FreeSpaceCSRCalc, z.ResistiveWallCalc, z.ConstImpedanceCalc],
+        'lemmas': [],
+        'level': 'other',
+        'claim': 'for a passive impedance the CSR spectrum is non-negative at every frequency and bunch, the integrated power is the frequency step times the sum of the spectrum and is non-negative '
+                 '(with or without cutoff); passivity of the impedance models is proved under C16',
+        'assumptions': [A_IDEAL, A_LIB, DROPS, 'L-PARSEVAL: equality with one half of profile times wake is not machine-checked', 'libm: 0 < exp(x), exp(x) <= 1 for x <= 0', 'multiplication abstracted to its sign rules'],
+        'uncovered': ['Parseval identity between spectrum power and wake loss', 'monotonicity in the cutoff'],
+        'explanation': 'sign and summation posts of updateCSR',
+        'technique': TECH,
+    },
+    'C16': {
+        'units': [z.FreeSpaceCSRCalc, z.ResistiveWallCalc, z.ConstImpedanceCalc, z.ImpedanceAddAssign],
+        'lemmas': [],
+        'level': 'other',
+        'claim': 'free-space CSR, resistive wall and constant impedance return exactly n samples (n >= 2), zero above n/2, non-negative real part, with the cube-root / square-root / constant laws; '
+                 'operator+= is the element-wise sum over the common length',
+        'assumptions': [A_IDEAL, A_LIB, DROPS, 'libm: pow(x>=0,y) >= 0, sqrt(x>=0) >= 0'],
+        'uncovered': ['ParallelPlatesCSR (Airy sums), CollimatorImpedance, the factory makeImpedance', 'causality (one-sidedness of the wake) and asymptotics', 'n in {0,1}'],
+        'explanation': 'shape, passivity and closed-form posts of the __calcImpedance functions',
         'technique': TECH,
     },
 }
